@@ -4,23 +4,23 @@ CONSTANTS
   ThrMode = "fixed"
   EmptyMode = "fixed"
   RstMode = "pinned"
-  CfgSet <- CloseCfgs
+  CfgSet <- TinyCfg
   SameCfg = TRUE
   Openers = {"A"}
   MaxOpens = 1
   Ids = {1}
   Hosts = {"h0"}
-  MaxWrites = 2
+  MaxWrites = 1
   Lens = {1}
   ReadMax = {4}
-  Closers = {"A"}
-  MuxDroppers = {"A", "B"}
+  Closers = {"A", "B"}
+  MuxDroppers = {}
   Cancellers = {}
   DgSenders = {}
   MaxDgrams = 0
   Binders = {}
   MaxBinds = 0
-  Faults = {"cutsrc", "endsrc", "cutsink", "softcut"}
+  Faults = {}
   AdvMsgs = {}
   MaxAdv = 0
   Bridgers = {}
@@ -28,5 +28,5 @@ CONSTANTS
   MaxCtr = 1
 VIEW View
 CONSTRAINT Bound
-INVARIANTS NoViolation TypeOK AckSound QueueBound InitialCredit ExactlyOne TargetCarried BoundedRetry Released DoneResolved
+INVARIANTS NoViolation TypeOK AckSound QueueBound InitialCredit ExactlyOne TargetCarried BoundedRetry Released DoneResolved NoOrphanWriter
 CHECK_DEADLOCK FALSE
